@@ -35,13 +35,13 @@ EXTRA_MODULES = {
     "C03": ["Tie.Bits", "Tie.BitsValidation"],
     "C04": ["Tie.Bits", "Tie.SigprocTables", "Tie.SigprocCodec", "Tie.WriterArith"],
     "C05": ["Tie.SigprocTables", "Tie.SigprocCodec"],
-    "C06": ["Tie.Plan", "Tie.Collapse", "Tie.Dedisperse", "Kernels.ExtractTim", "Kernels.ExtractBpass", "Kernels.Dedisperse"],
-    "C07": ["Tie.Plan", "Tie.Subband", "Kernels.InvertFreq", "Kernels.MaskChannels", "Kernels.Subband",
+    "C06": ["Tie.Plan", "Tie.StreamCalls", "Tie.Collapse", "Tie.Dedisperse", "Kernels.ExtractTim", "Kernels.ExtractBpass", "Kernels.Dedisperse"],
+    "C07": ["Tie.Plan", "Tie.StreamCalls", "Tie.Subband", "Kernels.InvertFreq", "Kernels.MaskChannels", "Kernels.Subband",
             "Kernels.RemoveZerodm", "Kernels.Downsample2d"],
     "C08": ["Tie.HeaderUpdates"],
     "C09": ["Tie.Dedisperse", "Tie.Subband", "Kernels.Dedisperse", "Kernels.Subband", "Kernels.RollBlock", "Kernels.DmtBlock", "Tie.DmLaw", "Tie.DedispBlock", "Tie.BlockCalls"],
     "C10": ["Tie.Moments", "Tie.ChannelStats"],
-    "C11": ["Tie.Plan", "Tie.Fold", "Kernels.Fold"],
+    "C11": ["Tie.Plan", "Tie.StreamCalls", "Tie.Fold", "Kernels.Fold"],
     "C12": ["Tie.FftLengths"],
     "C13": ["Tie.TemplatePrep", "Tie.StatsLane"],
     "C14": ["Kernels.Downsample1d", "Kernels.Downsample2d", "Tie.FilterGeom", "Tie.Detrend"],
